@@ -40,7 +40,10 @@ MCSpec     == HInit /\ [][DesignNext]_hvars
 \* the implementation before the fix commits (TLC must keep refuting it: _codeA/B/C.cfg)
 Code0Next  == CallAdd \/ CallAddFix \/ CallRemove \/ CallRename \/ Code0Steps \/ Code0Syncs
 CodeSpec   == HInit /\ [][Code0Next]_hvars
-\* the implementation as it is now (TLC must exhibit the remaining deviations: _codeD/E/F.cfg)
+\* the implementation at b13f4b7 (TLC must keep refuting it: _codeD/E/G/H.cfg)
+Code1Next  == CallAdd \/ CallAddFix \/ CallRemove \/ CallRename \/ Code1Steps \/ Code1Syncs
+Code1Spec  == HInit /\ [][Code1Next]_hvars
+\* the implementation as it is now: must satisfy everything the design does (_codeOK.cfg, _codeF.cfg)
 CodeNowNext == CallAdd \/ CallAddFix \/ CallRemove \/ CallRename \/ CodeSteps \/ CodeSyncs
 CodeNowSpec == HInit /\ [][CodeNowNext]_hvars
 \* ... and restricted to what is believed correct now (V1/V2, listfile present, no encryption, no name
